@@ -125,6 +125,15 @@ func (*TypeMismatch) Severity() Severity {
 	return ErrorSeverity
 }
 
+type DivByZero struct{}
+
+func (e *DivByZero) Message() string {
+	return "The denominator of a portion cannot be zero"
+}
+func (*DivByZero) Severity() Severity {
+	return ErrorSeverity
+}
+
 type RemainingIsNotLast struct{}
 
 func (e *RemainingIsNotLast) Message() string {
